@@ -252,7 +252,16 @@ def load_known():
 
 def shrink(cfg, ops, fails, workdir, budget=60):
     """`fails(trace) -> bool`. Returns a (locally) minimal op list that still fails."""
-    cur = list(ops)
+    # connection handling is never removed
+    keep = 0
+    while keep < len(ops) and ops[keep].split()[0] in ("conn", "login"):
+        keep += 1
+    head, cur = list(ops[:keep]), list(ops[keep:])
+    inner = fails
+    fails = lambda tr: inner(tr)
+    _run = run_history
+    def run_history_(cfg, cand, wd):
+        return _run(cfg, head + cand, wd)
     n = 2
     tries = 0
     while len(cur) >= 2 and tries < budget:
@@ -263,7 +272,7 @@ def shrink(cfg, ops, fails, workdir, budget=60):
             if not cand:
                 continue
             tries += 1
-            if fails(run_history(cfg, cand, workdir)):
+            if fails(run_history_(cfg, cand, workdir)):
                 cur = cand
                 n = max(n - 1, 2)
                 reduced = True
@@ -274,7 +283,7 @@ def shrink(cfg, ops, fails, workdir, budget=60):
             if chunk == 1:
                 break
             n = min(len(cur), n * 2)
-    return cur
+    return head + cur
 
 
 # ------------------------------------------------------------------------------------------------
@@ -302,3 +311,11 @@ def write_replay(prop, name, content):
 def parallel(fn, items, workers=16):
     with ThreadPoolExecutor(max_workers=workers) as ex:
         return list(ex.map(fn, items))
+
+
+def hash32(hexes):
+    """xxhash32 exactly as the server computes it, through the harness (`hash` mode)."""
+    if not hexes:
+        return []
+    r = subprocess.run([HBIN, "hash"], input="\n".join(hexes) + "\n", stdout=subprocess.PIPE, text=True)
+    return [int(x) for x in r.stdout.split()]
